@@ -71,7 +71,7 @@ theorem C14_client_recovers_code (c : Nat) (hc : c < 4294967296) (msg : Bytes)
     have hne : (natToDec c).isEmpty = false := by rw [hbr]; rfl
     have hp : parseCode (codeFromHttpStatus httpStatus) (natToDec c) = c := by
       unfold parseCode
-      rw [parseInt_natToDec 32 c (by simp; omega)]
+      rw [parseInt_natToDec 32 c (by rw [limOf_32]; omega)]
       show (wrapU32 (c : Int)).toNat = c
       unfold wrapU32 two32; omega
     simp only [codeMsgOfParts, hne, hp]; rfl
@@ -91,7 +91,7 @@ theorem C14_client_recovers_code (c : Nat) (hc : c < 4294967296) (msg : Bytes)
       · exact natToDec_no_colon _ x hx)]
     have hp : parseCode (codeFromHttpStatus httpStatus) (45 :: natToDec (4294967296 - c)) = c := by
       unfold parseCode
-      rw [parseInt_neg_natToDec 32 (4294967296 - c) (by simp; omega)]
+      rw [parseInt_neg_natToDec 32 (4294967296 - c) (by rw [limOf_32]; omega)]
       show (wrapU32 (-((4294967296 - c : Nat) : Int))).toNat = c
       unfold wrapU32 two32; omega
     simp only [codeMsgOfParts, hp, List.isEmpty_cons]; rfl
